@@ -4,6 +4,7 @@ import (
 	"context"
 	"errors"
 	"fmt"
+	"github.com/safing/portbase/modules"
 	"io/fs"
 )
 
@@ -59,6 +60,10 @@ func PanicNow(kind string) {
 		panic(map[string]int{"boom": 1})
 	case "slicestruct":
 		panic(SliceStruct{Msg: "boom", Path: []string{"a", "b"}})
+	case "moduleerror":
+		// an error of the module system's own reportable type (passed up from an inner worker, say): a panic value like
+		// any other - the resulting error is about THIS panic
+		panic(&modules.ModuleError{Message: "boom-module-error", ModuleName: "elsewhere", TaskName: "inner", Severity: "error"})
 	case "ctxcanceled":
 		// an error value that the worker code itself treats specially when it is *returned*
 		panic(context.Canceled)
